@@ -1,5 +1,5 @@
 //@ unit stack
-//@ serves C18 C04 C08 C09 C02
+//@ serves C18 C04 C08 C09 C07 C02
 //@ include prelude/header.rs
 verus! {
 //@ include prelude/error.rs
@@ -246,11 +246,11 @@ impl<P: Runtime, O: ObjectView> Runtime for StackFrame<P, O> {
 //@ sig fn roots(&self) -> (r: RootSet)
 //@ end
 //@ item crates/core/src/runtime/stack.rs :: impl super::Runtime for StackFrame<P,O>::try_get
-//@ props C18 C04 C02
+//@ props C18 C04 C02 C07
 //@ sig fn try_get(&self, path: &[ScalarCow]) -> (r: Option<ValueCow>)
 //@ end
 //@ item crates/core/src/runtime/stack.rs :: impl super::Runtime for StackFrame<P,O>::get
-//@ props C18 C04 C02
+//@ props C18 C04 C02 C07
 //@ sig fn get(&self, path: &[ScalarCow]) -> (r: Result<ValueCow>)
 //@ closure 0 arg_of=ok_or_else params=
 || -> (e: Error)
@@ -294,13 +294,13 @@ impl<P: Runtime> Runtime for GlobalFrame<P> {
 |k: &KStr| -> (c: KStringCow) ensures c.view() == k.view()
 //@ end
 //@ item crates/core/src/runtime/stack.rs :: impl super::Runtime for GlobalFrame<P>::try_get
-//@ props C18 C04 C02
+//@ props C18 C04 C02 C07
 //@ sig fn try_get(&self, path: &[ScalarCow]) -> (r: Option<ValueCow>)
 //@ closure 0 arg_of=map params=v
 |v: ValueCow| -> (r: ValueCow) ensures r.vid() == v.vid()
 //@ end
 //@ item crates/core/src/runtime/stack.rs :: impl super::Runtime for GlobalFrame<P>::get
-//@ props C18 C04 C02
+//@ props C18 C04 C02 C07
 //@ sig fn get(&self, path: &[ScalarCow]) -> (r: Result<ValueCow>)
 //@ closure 0 arg_of=ok_or_else params=
 || -> (e: Error)
@@ -345,13 +345,13 @@ impl<P: Runtime> Runtime for IndexFrame<P> {
 |k: &KStr| -> (c: KStringCow) ensures c.view() == k.view()
 //@ end
 //@ item crates/core/src/runtime/stack.rs :: impl super::Runtime for IndexFrame<P>::try_get
-//@ props C18 C04 C02
+//@ props C18 C04 C02 C07
 //@ sig fn try_get(&self, path: &[ScalarCow]) -> (r: Option<ValueCow>)
 //@ closure 0 arg_of=map params=v
 |v: ValueCow| -> (r: ValueCow) ensures r.vid() == v.vid()
 //@ end
 //@ item crates/core/src/runtime/stack.rs :: impl super::Runtime for IndexFrame<P>::get
-//@ props C18 C04 C02
+//@ props C18 C04 C02 C07
 //@ sig fn get(&self, path: &[ScalarCow]) -> (r: Result<ValueCow>)
 //@ closure 0 arg_of=ok_or_else params=
 || -> (e: Error)
@@ -382,7 +382,7 @@ impl<P: Runtime, O: ObjectView> Runtime for SandboxedStackFrame<P, O> {
 //@ edit <<std::collections::BTreeSet::new()>> => <<RootSet::new()>> why: BTreeSet is outside Verus; stand-in set type with the same constructor contract (empty set)
 //@ end
 //@ item crates/core/src/runtime/stack.rs :: impl super::Runtime for SandboxedStackFrame<P,O>::try_get
-//@ props C18 C04 C02
+//@ props C18 C04 C02 C07
 //@ sig fn try_get(&self, path: &[ScalarCow]) -> (r: Option<ValueCow>)
 //@ closure 0 arg_of=and_then params=_
 |_x: &dyn ValueView| -> (r: Option<ValueCow>)
@@ -390,7 +390,7 @@ impl<P: Runtime, O: ObjectView> Runtime for SandboxedStackFrame<P, O> {
             r is None ==> data.find_spec(path_keys(path@)) is None
 //@ end
 //@ item crates/core/src/runtime/stack.rs :: impl super::Runtime for SandboxedStackFrame<P,O>::get
-//@ props C18 C04 C02
+//@ props C18 C04 C02 C07
 //@ sig fn get(&self, path: &[ScalarCow]) -> (r: Result<ValueCow>)
 //@ closure 0 arg_of=ok_or_else params=
 || -> (e: Error)
